@@ -61,6 +61,9 @@ impl Validator {
             }))
             .collect::<Vec<String>>();
         let mut visited_headers = HashSet::<String>::new();
+        // DEFAULT values and value assignments are linked against the types they refer to, so the
+        // references in the constraints of *all* definitions are resolved first
+        let mut second_pass = keys.clone();
         while let Some(key) = keys.pop() {
             if matches![
                 self.tlds.get(&key),
@@ -176,6 +179,8 @@ impl Validator {
                     }
                 };
             }
+        }
+        while let Some(key) = second_pass.pop() {
             if let Some((k, mut tld)) = self.tlds.remove_entry(&key) {
                 if let Err(mut e) = tld.collect_supertypes(&self.tlds) {
                     e.contextualize(&key);
